@@ -136,7 +136,7 @@ fn gen_string(r: &mut Rng) -> String {
                 if i > 0 || r.chance(1, 6) {
                     s.push('\n');
                 }
-                s.push_str(r.pick(&["line", " lead", "trail ", "", "- x", "k: v", "# c", "...", "---", "\ttab", "é", "a  b"]));
+                s.push_str(r.pick(&["line", " lead", "trail ", "", "- x", "k: v", "# c", "...", "---", "\ttab", "é", "a  b", "\u{feff}bom", "x\u{fffe}", "\u{ffff}", "\u{e000}p", "\u{fffd}", "😀", "\u{85}nel", "\u{7f}", "\u{9b}"]));
             }
             if r.chance(1, 2) {
                 s.push('\n');
